@@ -6,6 +6,7 @@
 import Aqv.Lemmas.TrieBuild
 import Aqv.Lemmas.TrieProof
 import Aqv.Lemmas.TrieLoad
+import Aqv.Lemmas.TrieGc
 namespace Aqv.Props.C10
 open Aqv Aqv.Trie Aqv.Rlp
 
@@ -387,6 +388,43 @@ theorem root_content_only_partial (H : Bytes → Bytes) (hH : ∀ x, (H x).lengt
   obtain ⟨t₂, r₂, _, e₂, _⟩ := partial_history_refines H hH ops₂ s₂ h₂ c₂ z₂
   rw [e₁, e₂, (root_content_only H ops₁ ops₂ t₁ t₂ r₁ r₂ h).2]
 
+/-! ### the reference-counted node store (trie/database.go `reference` / `dereference`; state pruning) -/
+
+section Gc
+open Aqv.Gc
+variable {α : Type} [DecidableEq α]
+
+/-- **Counting invariant.** After any legal history of `hasher.store` / `Reference(root, {})` / `Dereference(root, {})`
+    calls (nodes stored with the child list their content determines; only outstanding pins released) whose cascades ran
+    to completion: for every cached node, `parents` = its outstanding root pins + the number of cached parents holding
+    a registered reference to it — every reference counted exactly once, repeated root pins included. -/
+theorem gc_parents_count (K : α → List α) (fuel : Nat) (ops : List (GcOp α)) (s' : Store α)
+    (hl : LegalRun K fuel ops Store.empty) (hr : gcRun fuel ops Store.empty = some s') :
+    ∀ n ∈ s'.nodes, s'.parents n = s'.pins n + (inE s' n : Int) := by
+  intro n hn
+  have := (gcRun_inv K fuel ops _ s' (ginv_empty K) hl hr).count n hn
+  simpa using this
+
+/-- **gc_keeps_referenced.** Under the same conditions, every root with at least one outstanding pin is still cached,
+    and so is every node reachable from it along registered child references (shared subtries included): releasing other
+    roots — or the same root fewer times than it was pinned — never evicts it. -/
+theorem gc_keeps_referenced (K : α → List α) (fuel : Nat) (ops : List (GcOp α)) (s' : Store α)
+    (hl : LegalRun K fuel ops Store.empty) (hr : gcRun fuel ops Store.empty = some s') (r : α) (hp : 1 ≤ s'.pins r) :
+    ∀ d, Desc s' r d → d ∈ s'.nodes :=
+  ginv_keeps (gcRun_inv K fuel ops _ s' (ginv_empty K) hl hr) hp
+
+end Gc
+
+/-- Witness for the seeded shape (C10-6): if only the FIRST reference from the meta root bumps `parents` while every
+    dereference decrements it, a root pinned twice and released once is evicted together with its subtrie although one
+    pin is outstanding; with the real `pin` the same history keeps both nodes. -/
+theorem single_count_first_reference_only_loses_node :
+    (∃ s : Gc.Store Nat, Gc.unpin 10 (Gc.pinFirstOnly (Gc.pinFirstOnly (Gc.storeNode (Gc.storeNode Gc.Store.empty 2 []) 1 [2]) 1) 1) 1
+        = some s ∧ s.pins 1 = 1 ∧ 1 ∉ s.nodes ∧ 2 ∉ s.nodes) ∧
+    (∃ s : Gc.Store Nat, Gc.unpin 10 (Gc.pin (Gc.pin (Gc.storeNode (Gc.storeNode Gc.Store.empty 2 []) 1 [2]) 1) 1) 1
+        = some s ∧ s.pins 1 = 1 ∧ 1 ∈ s.nodes ∧ 2 ∈ s.nodes) :=
+  ⟨⟨_, rfl, by decide, by decide, by decide⟩, ⟨_, rfl, by decide, by decide, by decide⟩⟩
+
 /-! ### key encodings -/
 
 theorem keybytes_hex_roundtrip (s : Bytes) : hexToKeybytes (keybytesToHex s) = some s := keybytes_hex_roundtrip' s
@@ -519,6 +557,22 @@ example : xget (fun _ => none) 6 (.hash (hashRootX toyH xleaf)) (keybytesToHex [
 example : Repr toyH (fun _ => none) true true (.hash (hashOf toyH leafT)) leafT :=
   .gone _ rfl (WF.leaf _ _ (term_keybytesToHex _) (by decide)) (Or.inl rfl) rfl
 
+-- the reference-counted store: a legal history (child 2 stored before its parent 1, root 1 pinned twice, released once)
+private def exK : Nat → List Nat := fun n => if n = 1 then [2] else []
+private def exGc : List (Gc.GcOp Nat) := [.store 2 [], .store 1 [2], .pin 1, .pin 1, .unpin 1]
+example : Gc.LegalRun exK 10 exGc Gc.Store.empty := by
+  refine ⟨rfl, fun s h => ?_⟩
+  obtain rfl := Option.some.inj h
+  refine ⟨rfl, fun s h => ?_⟩
+  obtain rfl := Option.some.inj h
+  refine ⟨trivial, fun s h => ?_⟩
+  obtain rfl := Option.some.inj h
+  refine ⟨trivial, fun s h => ?_⟩
+  obtain rfl := Option.some.inj h
+  exact ⟨(by decide : (1 : Int) ≤ (Gc.pin (Gc.pin (Gc.storeNode (Gc.storeNode Gc.Store.empty 2 []) 1 [2]) 1) 1).pins 1),
+    fun _ _ => trivial⟩
+example : ∃ s, Gc.gcRun 10 exGc Gc.Store.empty = some s ∧ s.pins 1 = 1 ∧ s.parents 1 = 1 ∧ s.parents 2 = 1 :=
+  ⟨_, rfl, by decide, by decide, by decide⟩
 -- hostile node blobs: decode error, and the modelled Go panic (empty compact key)
 private def outcome : Except DErr PNode → Nat
   | .ok _ => 0
